@@ -30,6 +30,10 @@ def _case(draw):
         # factors and second-order data refreshed every `interval` steps (both intervals equal, so that on the steps in between the
         # stored factors are still the ones the cached decompositions / inverses were computed from)
         'interval': draw(st.sampled_from([1, 1, 1, 2, 2, 3])),
+        # damping given as a schedule (callable of the step; values by step index modulo the length) instead of the constant above
+        'damping_schedule': draw(st.one_of(st.none(), st.none(), st.lists(st.sampled_from([0.003, 0.03, 0.1, 0.3, 1.0]), min_size=2, max_size=4))),
+        # before this step (if < steps) the state is saved and loaded into a fresh preconditioner on a fresh copy of the model
+        'reload_at': draw(st.sampled_from([None, None, None, 1, 2, 3])),
         'N': draw(st.integers(1, 6)),
         'style': draw(gens.style_strategy()),
         'data_seed': draw(st.integers(0, 10 ** 6)),
@@ -72,7 +76,7 @@ class C01(Prop):
     rule = ('Hypothesis draws a runnable model of 1-3 supported layers (linear incl. N-d inputs, conv2d with rectangular kernels/strides/'
             'paddings, bias on/off, subclasses), batch 1-6, data style, damping log-uniform in [1e-3,10], decay in (0,1], method x '
             'pre-divided eigenvalues x colocate, parameter dtype float32/float64, factor dtype None/float32/float64/bfloat16, inverse dtype '
-            'float32/float64, 1-4 steps with SGD weight updates in between, factors and second-order data refreshed every 1-3 steps (cached decompositions are reused in between), clipping off (1e30) or active; one case in five is a low-precision long run (eigen method, bfloat16 factors, decay <= 0.5, 3-8 steps, batch 1-3, inverse dtype float64/float32) in which the stored factors become measurably indefinite. One case in six runs W in {2,3,4} simulated ranks under a drawn placement and applies the same oracle on EVERY rank to the gradient it ends up with (computed there or received), from the averaged gradient and the factors that rank holds. Oracle: D recorded on a twin model '
+            'float32/float64, 1-4 steps with SGD weight updates in between, factors and second-order data refreshed every 1-3 steps (cached decompositions are reused in between), damping constant or a schedule, optionally a checkpoint round trip into a fresh preconditioner before step 1-3, clipping off (1e30) or active; one case in five is a low-precision long run (eigen method, bfloat16 factors, decay <= 0.5, 3-8 steps, batch 1-3, inverse dtype float64/float32) in which the stored factors become measurably indefinite. One case in six runs W in {2,3,4} simulated ranks under a drawn placement and applies the same oracle on EVERY rank to the gradient it ends up with (computed there or received), from the averaged gradient and the factors that rank holds. Oracle: D recorded on a twin model '
             'without K-FAC, A and G read from state_dict() after the step, V_ref from a float64 dense solve of the system named in the '
             'statement (Kronecker form for eigen), nu_ref from the clip formula; ||grad - nu_ref V_ref||_F <= 16 sqrt(n) eps kappa ||V_ref||_F, and '
             'the residual of the defining system is within the same bound. Non-trivial: tolerance <= 5e-2 and V_ref differs by more than '
@@ -83,8 +87,8 @@ class C01(Prop):
                    'kappa from the float64 system (product form for eigen, sum of the two factor condition numbers for inverse)']
     examples = {'quick': 500, 'thorough': 2000}
     shards = {'quick': 4, 'thorough': 16}
-    required_labels = {'quick': ['nontrivial=True', 'method=eigen', 'method=inverse', 'has_conv=True', 'clip=active', 'lowprec_long_run=True', 'reused_second_order=True', 'dist=True'],
-                       'thorough': ['nontrivial=True', 'method=eigen', 'method=inverse', 'has_conv=True', 'clip=active', 'lowprec_long_run=True', 'reused_second_order=True', 'dist=True']}
+    required_labels = {'quick': ['nontrivial=True', 'method=eigen', 'method=inverse', 'has_conv=True', 'clip=active', 'lowprec_long_run=True', 'reused_second_order=True', 'dist=True', 'reloaded=True'],
+                       'thorough': ['nontrivial=True', 'method=eigen', 'method=inverse', 'has_conv=True', 'clip=active', 'lowprec_long_run=True', 'reused_second_order=True', 'dist=True', 'reloaded=True']}
 
     def strategy(self, tier):
         return st.one_of(_case(), _case(), _case(), _case(), _lowprec_case(), _dist_case())
@@ -162,8 +166,11 @@ class C01(Prop):
         tmods = dict(twin.named_modules())
         kl = 1e30 if c['clip'] == 'off' else None
         # an active clip value is chosen after the first unclipped solve (needs the magnitude of <V,D>)
-        kwargs = dict(damping=c['damping'], factor_decay=c['decay'], lr=c['lr'], compute_method=c['method'],
-                      factor_update_steps=c.get('interval', 1), inv_update_steps=c.get('interval', 1),
+        sched = c.get('damping_schedule')
+        lam_of = (lambda step: sched[step % len(sched)]) if sched else (lambda step: c['damping'])
+        interval = c.get('interval', 1)
+        kwargs = dict(damping=(lam_of if sched else c['damping']), factor_decay=c['decay'], lr=c['lr'], compute_method=c['method'],
+                      factor_update_steps=interval, inv_update_steps=interval,
                       compute_eigenvalue_outer_product=c['prediv'], colocate_factors=c['colocate'],
                       factor_dtype=kmodel.dt(c['factor_dtype']), inv_dtype=kmodel.dt(c['inv_dtype']))
         klbox = [1e30]
@@ -181,8 +188,28 @@ class C01(Prop):
         nontrivial = False
         worst = 0.0
         worst_tol = 0.0
-        lam = c['damping']
+        baked_at = 0
         for t in range(c['steps']):
+            if c.get('reload_at') == t and t > 0:
+                # checkpoint round trip into a fresh preconditioner: second-order data is recomputed from the restored factors with the
+                # damping of the restored step
+                import pickle
+                blob = pickle.dumps(pre.state_dict())
+                new_model = kmodel.build_model(c['spec'], pd)
+                kmodel.copy_params(model, new_model)
+                with warnings.catch_warnings():
+                    warnings.simplefilter('ignore')
+                    pre = KFACPreconditioner(new_model, kl_clip=(lambda s: klbox[0]), **kwargs)
+                    pre.load_state_dict(pickle.loads(blob), compute_inverses=True)
+                model = new_model
+                mods = dict(model.named_modules())
+                baked_at = t
+                labels['reloaded'] = True
+            if t % interval == 0:
+                baked_at = t
+            # the damping in force: the current one where it is applied at use (eigen without pre-division), otherwise the one of the step
+            # at which the second-order data was last computed
+            lam = lam_of(t) if (c['method'] == 'eigen' and not c['prediv']) else lam_of(baked_at)
             x = kmodel.make_input(c['spec'], c['N'], c['data_seed'] + t, c['style'], pd)
             for m in (model, twin):
                 m.zero_grad(set_to_none=True)
